@@ -1,5 +1,6 @@
 //! Independent reference implementations used as oracles.  This crate must not depend on
 //! any dicom-rs crate (see Cargo.toml).
+pub mod annex_f;
 pub mod dict;
 pub mod ds;
 pub mod file;
